@@ -289,7 +289,16 @@ fn run_one(cx: &Ctx<'_>, cfg: &NetCfg, ops: &[Op], prefix: &[usize], allow_dev: 
         }
         for i in 0..n {
             if let (Some(c), Some(r)) = (stop_called_at[i], stop_returned_at[i]) {
-                let peers = cfg.edges.iter().filter(|(a, b)| *a == i || *b == i).count() as u32;
+                // stop() says goodbye to every peer the node has when it is called, one after the other, each wait
+                // bounded by the request timeout: the peers are those of the configuration plus any the lookups
+                // connected since (counted as the distinct destinations of the node's leave requests)
+                let configured = cfg.edges.iter().filter(|(a, b)| *a == i || *b == i).count();
+                let tid = &net.nodes[i].tid_hex;
+                let said_goodbye_to: std::collections::BTreeSet<String> = world.trace().iter().filter_map(|e| match e {
+                    Ev::Sent { from, kind, to, .. } if from == tid && kind == "dht-req-leave" => Some(to.clone()),
+                    _ => None,
+                }).collect();
+                let peers = configured.max(said_goodbye_to.len()) as u32;
                 let bound = REQUEST_TIMEOUT * (peers + 1) + Duration::from_secs(1);
                 obs.push(format!("stop{}:{}", i, (r - c).as_secs()));
                 if r - c > bound {
